@@ -1,16 +1,44 @@
-ASSUMPTIONS = ['at most one thread uses lock_upgrade and no other thread tries to lock for write while it may do so (documented requirement of lock_upgrade)',
-               'no recursive locking (documented)']
-OUTSIDE = 'tbd'
-CHECKS = ['--div-by-zero-check', '--no-unwinding-assertions']  # cbmc 6 emits unwinding assertions by default; spin loops are cut instead
-# kinds: 1 lock, 2 try_lock, 4 lock_shared, 8 try_lock_shared, 16 lock+lock_downgrade, 32 lock_shared+lock_upgrade
+TECHNIQUE = ('bounded symbolic execution of LLVM IR lowered to C: CBMC/SAT (cadical), sequentialised step machine '
+             '(engine cbmc-seq: symbolic round-robin scheduler over resumable thread roots, exact futex model, deadlock detection), '
+             'ghost occupancy counters')
+ASSUMPTIONS = ['lock_upgrade: only one thread can try to lock for write while an upgrade may happen (documented requirement): '
+               'in the upgrade instances exactly one thread upgrades and all other threads only take shared locks',
+               'no recursive locking (documented)',
+               'sequential consistency for the lock word (the only atomic)']
+OUTSIDE = ('more threads / longer per-thread sequences than stated; schedules needing more execution segments per thread than the stated number of '
+           'scheduler rounds; schedules in which a spin loop iterates more than twice within one execution segment (cut, not reported); '
+           'progress is decided for futex-parked lockers (a parked thread that nobody can wake is reported) and by the quiescent lock-word check; '
+           'a locker spinning forever on a leaked writer bit is not reported as such; weak-memory reorderings; reader-count overflow (2^31 readers); '
+           'the macOS / Windows CompletionEventImpl variants')
+# cbmc 6 emits unwinding assertions by default; spin loops are cut (assume) instead
+CHECKS = ['--div-by-zero-check', '--no-unwinding-assertions']
+# kinds (bit mask per thread, VF_K<t>): 1 lock, 2 try_lock, 4 lock_shared, 8 try_lock_shared, 16 lock+lock_downgrade, 32 lock_shared+lock_upgrade
+KINDS = 'kinds per thread are symbolic within its set; '
+
+
 def I(name, defs, steps, nthreads, bounds, **kw):
     d = {'name': name, 'src': 'rwlock.cpp', 'engine': 'cbmc-seq', 'steps': steps, 'spin_loops': True, 'defs': defs,
-         'unwind': 3, 'nthreads': nthreads, 'checks': CHECKS, 'timeout': 1500, 'must_reach': 'all', 'bounds': bounds}
+         'unwind': 3, 'nthreads': nthreads, 'checks': CHECKS, 'timeout': 1700, 'must_reach': 'all',
+         'bounds': bounds + '; %d scheduler rounds (each thread <= %d execution segments, preemption at every atomic op / futex call / inside the '
+                            'ghost critical section); spin loops <= 2 iterations per segment; <= 1 spurious futex return per thread' % (steps, steps)}
     d.update(kw)
     return d
+
+
 INSTANCES = [
-    I('wr3', {'VF_PAIRS': 1, 'VF_K1': 3, 'VF_K2': 12, 'VF_K0': 15, 'VF_MUST': 18}, 4, 3, 'tbd'),
-    I('down3', {'VF_PAIRS': 1, 'VF_K1': 16, 'VF_K2': 19, 'VF_K0': 12, 'VF_MUST': 8}, 4, 3, 'tbd'),
-    I('up3', {'VF_PAIRS': 1, 'VF_K1': 36, 'VF_K2': 12, 'VF_K0': 12, 'VF_MUST': 4}, 4, 3, 'tbd'),
-    I('tryroll2', {'VF_PAIRS': 1, 'VF_K1': 2, 'VF_MAIN_HOLDS_SHARED': 1, 'VF_MUST': 1}, 19, 2, 'tbd', unwind=2),
+    I('wr3', {'VF_PAIRS': 1, 'VF_K1': 3, 'VF_K2': 12, 'VF_K0': 15, 'VF_MUST': 18}, 4, 3,
+      '3 threads x 1 acquire/release pair: T1 in {lock, try_lock}, T2 in {lock_shared, try_lock_shared}, main in all four',
+      thorough={'defs': {'VF_PAIRS': 2, 'VF_K1': 3, 'VF_K2': 12, 'VF_K0': 15, 'VF_MUST': 18}, 'steps': 6}),
+    I('down3', {'VF_PAIRS': 1, 'VF_K1': 16, 'VF_K2': 19, 'VF_K0': 12, 'VF_MUST': 8}, 4, 3,
+      '3 threads x 1 pair: T1 lock+lock_downgrade, T2 in {lock, try_lock, lock+lock_downgrade}, main in {lock_shared, try_lock_shared}'),
+    I('up3', {'VF_PAIRS': 1, 'VF_K1': 36, 'VF_K2': 12, 'VF_K0': 12, 'VF_MUST': 4}, 4, 3,
+      '3 threads x 1 pair: T1 in {lock_shared+lock_upgrade, lock_shared}, T2 and main in {lock_shared, try_lock_shared} (single writer, as lock_upgrade requires)',
+      thorough={'defs': {'VF_PAIRS': 2, 'VF_K1': 36, 'VF_K2': 12, 'VF_K0': 12, 'VF_MUST': 4}, 'steps': 6}),
+    I('tryroll2', {'VF_PAIRS': 1, 'VF_K1': 2, 'VF_MAIN_HOLDS_SHARED': 1, 'VF_MUST': 1}, 19, 2,
+      '2 threads: main holds the lock shared until T1 finished; T1 try_lock runs its full 16-spin bounded drain, gives up and rolls back '
+      '(every pause is a forced thread switch, hence 19 rounds)', unwind=2),
+    I('wr4', {'VF_PAIRS': 1, 'VF_K1': 3, 'VF_K2': 12, 'VF_K3': 15, 'VF_K0': 12, 'VF_MUST': 18}, 4, 4,
+      '4 threads x 1 pair: T1 in {lock, try_lock}, T2 and main in {lock_shared, try_lock_shared}, T3 in all four', tiers=['thorough']),
+    I('tryroll3', {'VF_PAIRS': 1, 'VF_K1': 2, 'VF_K2': 12, 'VF_MAIN_HOLDS_SHARED': 1, 'VF_MUST': 1}, 19, 3,
+      '3 threads: as tryroll2 plus a reader T2 in {lock_shared, try_lock_shared} racing with the drain and the rollback', unwind=2, tiers=['thorough']),
 ]
